@@ -79,6 +79,11 @@ def run(ctx):
         theta = rng.choice([45, 60, 90, 120]); K = rng.randint(2, 7)
         unit = rng.choice([1.0, 1.0, 2.0 ** -34])           # the order has no absolute tolerance: tiny units must behave the same
         Y = [[rng.randint(-8, 8) / 4.0 * unit, rng.randint(-8, 8) / 4.0 * unit] for _ in range(K)]
+        if run_k >= nrand + 6:
+            # obtuse cone, a design dominated only by a design with a SMALLER first objective (the dominator lies towards the
+            # upper face of the cone): it does not belong to P
+            theta = 135; K = 4; unit = 1.0
+            Y = [[0.0, 0.0], [-1.0, 8.0], [-6.0, -6.0], [-7.0, -5.0]] if run_k == nrand + 6 else [[-7.0, -5.0], [2.0, 2.0], [1.0, 10.0], [-6.0, -6.0]]
         a = build(theta, K, 0.1, 0.1, 0.01, Y)
         a.L = rng.choice([1, 2, 4, 8, 12])
         # P may be read at any time: after every round, or only now and then (several rounds between two reads)
